@@ -12,16 +12,15 @@ CONSTANTS
  Msgs <- MCMsgs
  Subject <- MCSubject
  MaxCommits = 2
- FreshContent = "c1"
+ FreshContent = ""
  Want = {"ALL"}
  ArgLists <- MCArgLists
  InitEvents <- MCInitEvents
- WithId = TRUE
+ WithId = FALSE
  CfgKeys <- MCCfgKeys
  CfgValues <- MCCfgValues
  IgnoreVariants <- MCIgnoreVariants
  Cmds <- MCCmds
 CONSTRAINT MCLevel
-PROPERTY StepOK
-INVARIANTS InvConnected InvCanonical InvNoMeta InvRoundTrip InvTreeOf
 CHECK_DEADLOCK FALSE
+ACTION_CONSTRAINT Emit
